@@ -55,7 +55,8 @@ def run(tier):
              'message with list/set/reversed index arguments, remove, load, get of removed ids) over 1-6 messages on '
              'DictStorage, DiskStorage (real files), RedisStorage over a redis double and CloudStorage over an '
              'object-store double; for the yielding backends two greenlets operate on disjoint ids with a yield at every '
-             'substrate round trip (real I/O for disk); operations are call/return pairs linearised by TLC; '
+             'substrate round trip (real I/O for disk); random redis key prefixes (with and without a trailing colon); a listing '
+             'stepped by hand with a not-yet-listed message removed in the middle (yielding backends only); operations are call/return pairs linearised by TLC; '
              'non-trivial = at least 5 operations',
         trigger=lambda tr: sum(1 for e in tr['ev'] if e['t'] == 'call') >= 5,
         assumptions=['mutating operations are not issued on removed ids (outside the documented contract); get of a removed id '
